@@ -117,9 +117,47 @@ def c14(ctx):
 
 
 # ---------------------------------------------------------------------------------------- C15
+def c15_oparray(ctx):
+    """operation-array factory: operation progress and job locations read independently from the state"""
+    inst = ctx.instance
+    nbuf = len(inst.buffers) + 3 * len(inst.machines) + len(inst.transports)
+    for si, rec in enumerate(ctx.records):
+        if rec.kind not in ("reset", "act") or rec.error is not None or rec.obs is None:
+            continue
+        res = rec.result if rec.kind == "reset" else rec.env_state
+        if rec.kind == "act" and rec.result is not rec.env_state:
+            continue
+        s = res.state
+        obs = rec.obs
+        exp = []
+        for j in s.jobs:
+            for o in j.operations:
+                if o.operation_state_state == OS.IDLE:
+                    exp.append(0.0)
+                elif o.operation_state_state == OS.DONE:
+                    exp.append(1.0)
+                else:
+                    a, b = tt(o.start_time), tt(o.end_time)
+                    exp.append((tt(s.time) - a) / (b - a) if b != a else None)
+        got = [float(x) for x in np.asarray(obs["operation_state"]).reshape(-1)]
+        if len(got) != len(exp) or any(e is not None and abs(g - e) > 1e-5 * max(1, abs(e)) for g, e in zip(got, exp)):
+            yield F("field-differs-from-state:operation_state", f"observation {got} but the state says {exp}", si)
+            return
+        if nbuf > 1:
+            expl = [int(j.location.split("-")[1]) / (nbuf - 1) for j in s.jobs]
+            gotl = [float(x) for x in np.asarray(obs["job_locations"]).reshape(-1)]
+            if len(gotl) != len(expl) or any(abs(g - e) > 1e-5 * max(1, abs(e)) for g, e in zip(gotl, expl)):
+                yield F("field-differs-from-state:job_locations",
+                        f"observation {gotl} but buffer number / (number of buffers - 1) gives {expl}", si)
+                return
+
+
 def c15(ctx):
     env = ctx.run.env
-    if env is None or ctx.run.obs_kind != 0:
+    if env is None:
+        return
+    if ctx.run.obs_kind != 0:
+        yield from c15_oparray(ctx)
         return
     inst = ctx.instance
     nj, nm = ctx.nj, len(inst.machines)
